@@ -355,3 +355,11 @@ _finalise()
 PROPS['C07']['modules'] = ['harness.hcompile', 'harness.c07_semantic']
 PROPS['C07']['files'] = COMPILE_FILES + ['pysmi/codegen/symtable.py', 'pysmi/codegen/intermediate.py', 'pysmi/parser/smi.py']
 PROPS['C07']['functions'] += ['SymtableCodeGen.genCode / JsonCodeGen.genCode / PySnmpCodeGen.genCode on modules with semantic defects (error type)']
+
+# ---- engine EXEC: template / CPython / pysnmp layer executed concretely per solver-explored path -------------------------
+EXEC_NOTE = ('EXEC conditions (names *.exec.*): only the SHAPE of the MIB is symbolic; on every path CrossHair explores the real '
+             'Jinja2 template, compile() and pysnmp run concretely and the loaded objects are compared with the JSON document')
+for _p, _m in (('C04', 'harness.x04'), ('C05', 'harness.x05'), ('C06', 'harness.x06'), ('C15', 'harness.x15'), ('C16', 'harness.x16')):
+    PROPS[_p]['modules'] = PROPS[_p]['modules'] + [_m]
+    PROPS[_p]['stubs'] = list(PROPS[_p].get('stubs', [])) + [EXEC_NOTE]
+    PROPS[_p]['files'] = list(PROPS[_p]['files']) + ['pysmi/codegen/templates/pysnmp/mib-definitions.j2', 'pysmi/codegen/templates/pysnmp/base.j2', 'pysmi/codegen/pysnmp.py']
